@@ -58,7 +58,8 @@ def _check_tensor_info(*tensors, size, dtype, device):
     dtypes = [] if dtype is None else [dtype]
     dtypes += [t.dtype for t in tensors]
 
-    devices = [] if device is None else [device]
+    # `device` may be given as a string (as documented); tensors report a torch.device.
+    devices = [] if device is None else [torch.device(device)]
     devices += [t.device for t in tensors]
 
     if len(sizes) == 0:
